@@ -103,11 +103,22 @@ def harness_build():
     _harness_built = True
 
 
-def _run_batch(args):
+def _run_batch(args, timeout=1800):
     cmd, lines = args
-    p = subprocess.run([HARNESS_BIN, cmd], input="\n".join(lines) + "\n", capture_output=True, text=True)
-    outs = [l for l in p.stdout.split("\n") if l.strip()]
-    return p.returncode, outs, p.stderr[-2000:]
+    try:
+        p = subprocess.run([HARNESS_BIN, cmd], input="\n".join(lines) + "\n", capture_output=True, text=True, timeout=timeout)
+        out, err, rc = p.stdout, p.stderr, p.returncode
+    except subprocess.TimeoutExpired as ex:
+        out = ex.stdout.decode("utf-8", "replace") if isinstance(ex.stdout, bytes) else (ex.stdout or "")
+        err, rc = "TIMEOUT", -9
+    outs = [l for l in out.split("\n") if l.strip()]
+    # a line cut off by the kill is not an answer
+    if rc == -9 and outs:
+        try:
+            json.loads(outs[-1])
+        except ValueError:
+            outs = outs[:-1]
+    return rc, outs, err[-2000:]
 
 
 def harness(cmd, reqs, shards=None, timeout_each=None):
@@ -137,9 +148,11 @@ def harness(cmd, reqs, shards=None, timeout_each=None):
                     res[i + k] = json.loads(o)
                 k = len(outs)
                 while k < len(c):
-                    rc1, o1, e1 = _run_batch((cmd, [c[k]]))
+                    rc1, o1, e1 = _run_batch((cmd, [c[k]]), timeout=timeout_each or 120)
                     if len(o1) == 1:
                         res[i + k] = json.loads(o1[0])
+                    elif rc1 == -9:
+                        res[i + k] = {"hang": (timeout_each or 120) * 1000}
                     else:
                         res[i + k] = {"abort": rc1, "stderr": e1[-300:]}
                     k += 1
